@@ -294,6 +294,9 @@ def assign(self: Interp, target, val, st: State):
             lst.append((base.term, val))
             ov[target.attr] = lst
             st.heap["$opq"] = ov
+            cl = dict(st.heap.get("$opq_cls", {}))
+            cl[base.term.get_id()] = base.cls
+            st.heap["$opq_cls"] = cl
             return
         if hasattr(base, "__class__") and base.__class__.__name__ == "GhostNS":
             st.ghost[target.attr] = val
@@ -534,6 +537,15 @@ def diff_states(before: State, after: State):
         elif not _same(before.env[k], v):
             mods[("env", k)] = (before.env[k], v)
     for hid, cell in after.heap.items():
+        if hid == "$opq_cls":
+            continue
+        if hid == "$opq":
+            # store log of foreign objects' fields: present from the first store on
+            b = before.heap.get(hid, {})
+            for f, v in cell.items():
+                if v is not b.get(f) and v != b.get(f):
+                    mods[("field", hid, f)] = (b.get(f, []), v)
+            continue
         if hid not in before.heap:
             continue
         b = before.heap[hid]
